@@ -104,7 +104,7 @@ def check(prog, rep):
             # differ, which says nothing about the values
             rep.undecided(f"degree[{key}]: answer form not recognised ({a} / {b}); sibling agreement not decided on this view")
             continue
-        rep.ob("R15.2", f"degree[{key}]", a == b, f"both analysers answer {a}" if a == b else f"recursive analyser answers {a}, iterative analyser answers {b}: the classification of one formula changes when the tree gets deep", loc=prog.func(PAIRS[1][2]).loc, detail="form", robust=True)
+        rep.ob("R15.2", f"degree[{key}]", a == b, f"both analysers answer {a}" if a == b else f"recursive analyser answers {a}, iterative analyser answers {b}: the classification of one formula changes when the tree gets deep", loc=prog.func(PAIRS[1][2]).loc, detail="form", robust=False)   # the form table reads one answer site per kind; merged / table-driven arms are not followed
 
     # ------------------------------------------------------------------ R15.2 gradient: arm terms agree
     try:
